@@ -468,6 +468,7 @@ def load_builders(path, root=None):
                 b.asserts.append(A.ftxt(m))
         if b.blocks or b.helper_calls:
             out[b.name] = b
+    M.splice_emitters(out)
     return out
 
 
